@@ -31,6 +31,15 @@ pub fn resolve_addr(
         match value
         {
             expr::Value::Integer(bigint) => bigint,
+
+            // On the final iteration, a failed constraint
+            // can't be treated as a guess anymore
+            expr::Value::FailedConstraint(msg) if ctx.is_last_iteration =>
+            {
+                report.message(msg);
+                return Err(());
+            }
+
             _ => util::BigInt::new(0, None),
         }
     };
